@@ -169,6 +169,8 @@ Obl(e) ==
   CASE e.op = "Run" -> RunObl(e)
     [] e.op = "Verify" -> VerifyObl(e)
     [] e.op = "RLEval" -> RLObl(e)
+    \* many honest issuances through the same long-lived objects: run number n is like run number 1
+    [] e.op = "Endure" -> << <<"quiet", e.panic = "">>, <<"honest-completes", e.done = e.n /\ e.first_bad = -1>> >>
     \* an honest value presented under every other 16-bit token type: never accepted
     [] e.op = "TypeSweep" -> << <<"quiet", e.panic = "">>, <<"only-own-type-accepted", e.accepted = 0 /\ e.tried > 0>> >>
     [] e.op = "Det" -> DetObl(e)
